@@ -150,6 +150,15 @@ func init() {
 		didDict[d] = didtypes.NewDID(pub[:])
 		didRev[didDict[d]] = d
 	}
+	// "d2": an identifier whose first characters are all letters of the method prefix itself ("did:panacea:" + "cedipan..."): whatever strips or
+	// matches the prefix by character set instead of literally eats into the identifier.  (A DID need not be derived from its key.)
+	{
+		old := didDict["d2"]
+		delete(didRev, old)
+		d2 := old[:len("did:panacea:")] + "cedipan" + old[len("did:panacea:")+7:]
+		didDict["d2"] = d2
+		didRev[d2] = "d2"
+	}
 	// "dc": a hostile twin of d1 — the same identifier with the case of one letter flipped (still valid base58)
 	d1 := []byte(didDict["d1"])
 	for i := len("did:panacea:"); i < len(d1); i++ {
